@@ -50,9 +50,9 @@ int fileno_unlocked(void*);
 int fseeko(void*, long, int);
 int vsnprintf(char*, uint64_t, const char*, va_list);
 int vfscanf(void*, const char*, va_list);
-#define FOREIGN(f, expr) do { if ((uint8_t*)(f) != hfile_) return (expr); } while (0)
+#define FOREIGN(f, expr) if ((uint8_t*)(f) != hfile_) return (expr)
 #else
-#define FOREIGN(f, expr) do { if ((uint8_t*)(f) != hfile_) ASSERT(0, "stream function called on a FILE* that is not the harness file"); } while (0)
+#define FOREIGN(f, expr) if ((uint8_t*)(f) != hfile_) ASSERT(0, "stream function called on a FILE* that is not the harness file")
 #endif
 
 uint64_t STUB(fread)(uint8_t* p, uint64_t size, uint64_t n, uint8_t* f) {
